@@ -47,8 +47,8 @@ impl Prop for C02 {
       name: "ascii trees",
       source: Cases::Generated(
         Box::new(|| tree(GenCfg::positional()).prop_map(|spec| TreeCase { spec }).boxed()),
-        150_000,
-        4_000_000,
+        1_000_000,
+        12_000_000,
       ),
     }]
   }
